@@ -1698,7 +1698,7 @@ fn gen_c01(args: &Args) -> Vec<Scenario> {
         }
     }
     // random multi-fault histories
-    let n_random = args.tier.pick(240, 3000);
+    let n_random = args.tier.pick(240, 12000);
     for i in 0..n_random {
         let mut s = default_scn("c01", &format!("random#{i}"));
         s.plan = random_plan(&mut rng, i % 3 == 0);
@@ -1713,7 +1713,7 @@ fn gen_c01(args: &Args) -> Vec<Scenario> {
     }
     // a partially-reliable sibling channel shares the association (abandonment / FORWARD-TSN must
     // not stall the reliable channel), and in-band channels are opened while the send buffer is full
-    let n_sib = args.tier.pick(32, 300);
+    let n_sib = args.tier.pick(32, 1200);
     for i in 0..n_sib {
         let mut s = default_scn("c01", &format!("sibling#{i}"));
         let mut sib = reliable_chan(3);
@@ -1733,7 +1733,7 @@ fn gen_c01(args: &Args) -> Vec<Scenario> {
         }
         out.push(s);
     }
-    for i in 0..args.tier.pick(6, 40) {
+    for i in 0..args.tier.pick(6, 120) {
         let mut s = default_scn("c01", &format!("inband-saturated#{i}"));
         for id in [2u16, 4, 6] {
             let mut c = reliable_chan(id);
@@ -1754,7 +1754,7 @@ fn gen_c01(args: &Args) -> Vec<Scenario> {
     }
     // truly parallel senders of multi-fragment messages on DIFFERENT channels of one association:
     // the fragments of a message must keep consecutive TSNs whatever the task interleaving
-    for i in 0..args.tier.pick(4, 24) {
+    for i in 0..args.tier.pick(4, 48) {
         let mut s = default_scn("c01", &format!("parallel-frag#{i}"));
         s.chans = (1..=6u16).map(reliable_chan).collect();
         s.plan = if i % 2 == 0 { Plan::default() } else { random_plan(&mut rng, false) };
@@ -1823,7 +1823,7 @@ fn gen_c12(args: &Args) -> Vec<Scenario> {
     let mut rng = Rng::new(args.seed).fork(0xC12);
     let mut out = vec![];
     let types = all_chan_types();
-    let n = args.tier.pick(160, 1200);
+    let n = args.tier.pick(160, 5000);
     let singles = single_fault_plans();
     for i in 0..n {
         let mut s = default_scn("c12", &format!("c12#{i}"));
@@ -1988,13 +1988,13 @@ fn gen_c13(args: &Args) -> Vec<Scenario> {
     // a sample of the C01 / C12 workloads and fault histories
     let mut c01 = gen_c01(args);
     rng.shuffle(&mut c01);
-    for mut s in c01.into_iter().take(args.tier.pick(120, 800)) {
+    for mut s in c01.into_iter().take(args.tier.pick(120, 3000)) {
         s.kind = "c13".into();
         out.push(s);
     }
     let mut c12 = gen_c12(args);
     rng.shuffle(&mut c12);
-    for mut s in c12.into_iter().filter(|s| s.label != "ssnwrap" && s.label != "ssnwrap-lossy").take(args.tier.pick(60, 400)) {
+    for mut s in c12.into_iter().filter(|s| s.label != "ssnwrap" && s.label != "ssnwrap-lossy").take(args.tier.pick(60, 1500)) {
         s.kind = "c13".into();
         out.push(s);
     }
